@@ -39,7 +39,7 @@ func c15History(n, events int) {
 	off := make([]time.Duration, n)
 	for i := range ds {
 		ds[i] = &Dialer{property: &Property{}}
-		off[i] = time.Duration(vs.IntRange("offset"+strconv.Itoa(i), 0, 1_000_000_000))
+		off[i] = time.Duration(vs.IntRange("offset"+strconv.Itoa(i), -10_000_000_000, 7_200_000_000_000))
 		annos[i] = &Annotation{AddLatency: off[i]}
 	}
 	a := NewAliveDialerSet(nil, "g", &NetworkType{}, tol, policy, ds, annos, func(alive bool) {}, false)
@@ -196,7 +196,7 @@ func Verif_C15_policy_switch() {
 	off := make([]time.Duration, n)
 	for i := range ds {
 		ds[i] = &Dialer{property: &Property{}}
-		off[i] = time.Duration(vs.IntRange("offset"+strconv.Itoa(i), 0, 1_000_000_000))
+		off[i] = time.Duration(vs.IntRange("offset"+strconv.Itoa(i), -10_000_000_000, 7_200_000_000_000))
 		annos[i] = &Annotation{AddLatency: off[i]}
 	}
 	from := []consts.DialerSelectionPolicy{consts.DialerSelectionPolicy_Random, consts.DialerSelectionPolicy_MinAverage10Latencies}[vs.Choice("startPolicy", 2)]
